@@ -12,7 +12,7 @@ import itertools, random
 
 SCOPED = ['for', 'forelse', 'forrec', 'forrecne', 'forfilter', 'with', 'setblock', 'setblockf', 'filter', 'autoescape', 'if', 'ifelse']
 SCOPED_MACRO = ['macrocall', 'callblock']
-LEAVES_EXTRA = ['setblockself', 'looplookup', 'slice', 'nsset', 'callarg', 'testarg', 'ifexpr']
+LEAVES_EXTRA = ['setblockself', 'looplookup', 'slice', 'nsset', 'callarg', 'testarg', 'ifexpr', 'mapkey']
 LEAVES = ['text', 'emit', 'break', 'continue', 'set', 'ifbreak', 'ifcontinue', 'emitvar', 'setself', 'withself', 'recurse']
 
 
@@ -57,6 +57,9 @@ class Gen:
             return '{{ a is divisibleby(ta1) }}{{ a|default(da1) }}'
         if kind == 'ifexpr':
             return '{{ ie1 if ie2 else ie3 }}{{ [li1, (tu1, tu2), {"k": ma1}] }}'
+        if kind == 'mapkey':
+            # a dict literal whose key is an expression, a keyword-argument value and a subscript key
+            return '{{ {mk1: 1, "k": mv1} }}{{ {(mk2 ~ "_id"): 2}|length }}{{ a[mk3] }}{{ dict(kw=mk4) }}'
         if kind == 'looplookup':
             return '{{ loop.index }}'
         if kind == 'recurse':
@@ -95,6 +98,10 @@ class Gen:
             return '{%% for %s in %s if %s %%}%s{%% endfor %%}%s' % (v, self.fresh('l'), v, body(v), s)
         if kind == 'with':
             return '{%% with %s = a %%}%s{%% endwith %%}%s' % (self.fresh('w'), body(None), s)
+        if kind == 'with2':
+            # a later binding reads an earlier target of the same with statement
+            w1, w2 = self.fresh('w'), self.fresh('w')
+            return '{%% with %s = a, %s = %s %%}%s{{ %s }}{%% endwith %%}%s' % (w1, w2, w1, body(None), w2, s)
         if kind == 'setblock':
             v = self.fresh('sb')
             return '{%% set %s %%}%s{%% endset %%}{{ %s }}%s' % (v, body(None), v, s)
